@@ -170,7 +170,20 @@ def view(sql, md, provider_kind):
         return {"EXC": observe.exc_name(e), "msg": str(e)[:200]}
 
 
-def check(stmt_sql, exp, md, scope_tables):
+def three_part(x):
+    """the same case with every schema-qualified table moved into a catalog (s1.ta -> dbz.s1.ta): text, metadata keys, reference answer"""
+    import re
+
+    if isinstance(x, str):
+        return re.sub(r"\b(s[0-9])\.", r"dbz.\1.", x)
+    if isinstance(x, dict):
+        return {three_part(k): (v if k in ("metadata_columns",) else three_part(v)) for k, v in x.items()}
+    if isinstance(x, (list, tuple)):
+        return type(x)(three_part(v) for v in x)
+    return x
+
+
+def check(stmt_sql, exp, md, scope_tables, sqlalchemy=True):
     """returns None | detail"""
     base = view(stmt_sql, None, None)
     got = view(stmt_sql, md, "dummy")
@@ -181,14 +194,14 @@ def check(stmt_sql, exp, md, scope_tables):
     for k in ("S", "T", "I"):
         if base[k] != got[k]:
             return {"what": f"metadata changes table lineage ({k})", "without": base[k], "with": got[k]}
-    if not any(t in md for t in scope_tables + ["s9.tgt"]):
+    if not any(t in md for t in scope_tables) and not any(k.endswith("s9.tgt") for k in md):
         if base["pairs"] != got["pairs"]:
             return {"what": "only unknown tables involved but the result differs from the no-provider result", "without": base["pairs"], "with": got["pairs"]}
     e, g = C02.norm_pairs(exp[2]), C02.norm_pairs(got["pairs"])
     if e != g:
         return {"what": "column pairs differ from the reference model with metadata", "missing": [list(p) for p in sorted(set(e) - set(g))],
                 "extra": [list(p) for p in sorted(set(g) - set(e))]}
-    if md:
+    if md and sqlalchemy:
         sa = view(stmt_sql, md, "sqlalchemy")
         if sa != got:
             return {"what": "the two bundled providers disagree", "dummy": got.get("pairs"), "sqlalchemy": sa.get("pairs") or sa}
@@ -222,6 +235,15 @@ def judge(stmt, name, scope, flags, md, res, ctx, stream):
     res.case((sql, json.dumps(md, sort_keys=True)), nt, labels=[stream, "template:" + name.split(":")[0], f"known_tables={len(known_in_scope)}/{len(scope)}"] +
              (["target_known"] if "s9.tgt" in md else []) + sorted("flag:" + f for f in flags), sample=c)
     d = check(sql, exp, md, scope_tables)
+    if d is None and stream == "enumerated":
+        # the same case over three-part names (catalog.schema.table), dict-backed provider only (sqlite has no catalogs)
+        md3 = {three_part(k): v for k, v in md.items()}
+        c3 = {"sql": three_part(sql), "metadata": md3, "expected": {"S": three_part(exp[0]), "T": three_part(exp[1]), "pairs": three_part([list(p) for p in exp[2]])},
+              "scope": three_part(scope_tables), "three_part": True}
+        res.case((c3["sql"], json.dumps(md3, sort_keys=True)), nt, labels=["enumerated_three_part_names"], sample=None)
+        d = check(c3["sql"], (c3["expected"]["S"], c3["expected"]["T"], [tuple(p) for p in c3["expected"]["pairs"]]), md3, c3["scope"], sqlalchemy=False)
+        if d is not None:
+            c = c3
     if d is None:
         return None
     fid = classify(c, d)
@@ -355,7 +377,7 @@ def replay(case):
         d = check_script(case["sql"], case["metadata"], True)
         return None if d is None else {"kind": "replay", "case": case, "detail": d}
     e = case["expected"]
-    d = check(case["sql"], (e["S"], e["T"], [tuple(p) for p in e["pairs"]]), case["metadata"], case.get("scope", []))
+    d = check(case["sql"], (e["S"], e["T"], [tuple(p) for p in e["pairs"]]), case["metadata"], case.get("scope", []), sqlalchemy=not case.get("three_part"))
     return None if d is None else {"kind": "replay", "case": case, "detail": d}
 
 
